@@ -401,7 +401,7 @@ func TestC16(t *testing.T) {
 	pf.MaxFields = 8
 	runBehavioural(t, behOpts{id: "C16", level: "exploration",
 		rule: "(a) complete matrix of ordered element-type pairs over the slice alphabet (identical basic, named, struct, pointer, interface elements; assignable-not-identical such as T into interface{}; convertible under :typecast; not convertible; local and imported; named slice types) as same-named fields, reached through fields and through getters, with :typecast on and off; " +
-			"(b) rapid struct pairs restricted to slice and basic field types. Every generated function is executed on value sets with nil, empty non-nil, length 1-4, cap > len and shared-backing-array slices: after the call elements equal the (converted) source elements, " +
+			"(b) rapid struct pairs restricted to slice and basic field types; (c) slice members of a nested struct of the same type on both sides that a notation below it (:skip / :literal / :map on a sibling member, one and two levels down) forces to be copied member by member. Every generated function is executed on value sets with nil, empty non-nil, length 1-4, cap > len and shared-backing-array slices: after the call elements equal the (converted) source elements, " +
 			"writing to every source element afterwards leaves the destination unchanged and vice versa, a nil source leaves the field as it was or nil; structurally no element conversion without :typecast. Non-trivial: a pair that is not identical-basic or a value set with nil / shared backing; evaluations = executed value sets.",
 		quick: 240, thorough: 5000, valuesQ: 12, valuesT: 60, pf: pf, extraStructural: nil, extra: c16Matrix,
 		nontrivial: func(p *pg.Prog, r *behResult) bool {
@@ -413,6 +413,8 @@ func TestC16(t *testing.T) {
 			return false
 		}})
 }
+
+func withStringer(m pg.Method) pg.Method { m.Opts.Stringer = 1; return m }
 
 // c16Matrix enumerates all ordered pairs of slice-typed atoms.
 func c16Matrix(env *hx.Env, rec *hx.Recorder, t *testing.T, judge func(*pg.Prog, hx.Files) (*behResult, hx.Verdict)) {
@@ -463,7 +465,9 @@ func c16Matrix(env *hx.Env, rec *hx.Recorder, t *testing.T, judge func(*pg.Prog,
 		}
 		p.Ifaces = []pg.Iface{{Name: "Convergen", Methods: []pg.Method{
 			mk("ConvertFields", "MS", false, false, false), mk("ConvertFieldsTypecast", "MS", true, false, true),
-			mk("ConvertGetters", "GS", false, true, true), mk("ConvertGettersTypecast", "GS", true, true, false)}}}
+			mk("ConvertGetters", "GS", false, true, true), mk("ConvertGettersTypecast", "GS", true, true, false),
+			// :stringer is about fields, never about the elements of a slice (with and without :typecast next to it)
+			withStringer(mk("ConvertFieldsStringer", "MS", false, false, false)), withStringer(mk("ConvertGettersStringerTypecast", "GS", true, true, true))}}}
 		p.FixImports()
 		files := p.Files()
 		r, v := judge(p, files)
@@ -475,10 +479,10 @@ func c16Matrix(env *hx.Env, rec *hx.Recorder, t *testing.T, judge func(*pg.Prog,
 			continue
 		}
 		recordBehStats(rec, r)
-		rec.NonTrivialDistinctN(len(chunk) * 4)
+		rec.NonTrivialDistinctN(len(chunk) * 6)
 		rec.ClassN("matrix:element-type-pairs", len(chunk))
 		if fi%7 == 0 {
-			rec.Sample(map[string]any{"matrix_file": fi, "pairs": fmt.Sprintf("%s->%s, %s->%s …", atoms[chunk[0].a].Home, atoms[chunk[0].b].Home, atoms[chunk[len(chunk)-1].a].Home, atoms[chunk[len(chunk)-1].b].Home), "methods": "fields / fields+typecast(arg style) / getters(arg style) / getters+typecast"})
+			rec.Sample(map[string]any{"matrix_file": fi, "pairs": fmt.Sprintf("%s->%s, %s->%s …", atoms[chunk[0].a].Home, atoms[chunk[0].b].Home, atoms[chunk[len(chunk)-1].a].Home, atoms[chunk[len(chunk)-1].b].Home), "methods": "fields / fields+typecast(arg style) / getters(arg style) / getters+typecast / fields+stringer / getters+stringer+typecast(arg style)"})
 		}
 		if v.OK {
 			// structurally: no element conversion without :typecast (C16 third sentence) is part of C04's judge
@@ -491,7 +495,77 @@ func c16Matrix(env *hx.Env, rec *hx.Recorder, t *testing.T, judge func(*pg.Prog,
 	}
 	rec.SetExhaustive(true)
 	rec.Extra["matrix_slice_alphabet"] = len(atoms)
+
+	// (c) slices inside a nested struct of the same type on both sides: copied as a whole it is one assignment, but a
+	// notation below it takes the struct apart, and then its slice members are slice fields copied by name match
+	if mine(env, nfiles+1) {
+		p := &pg.Prog{ExtraFiles: hx.Files{{Name: "home/bag.go", Data: c16BagTypes}}}
+		var ms []pg.Method
+		notes := [][]pg.Notation{
+			{{Kind: "skip", Args: []string{"Bag.Secret"}}},
+			{{Kind: "literal", Args: []string{"Bag.Owner", `"x"`}}},
+			{{Kind: "map", Args: []string{"N", "Bag.Secret"}}},
+			{{Kind: "skip", Args: []string{"/Secret$/"}}},
+			{{Kind: "skip", Args: []string{"Bag.Tags"}}, {Kind: "literal", Args: []string{"Other.Secret", "7"}}},
+			{{Kind: "skip", Args: []string{"Deep.Bag.Owner"}}},
+		}
+		for i, ns := range notes {
+			for _, arg := range []bool{false, true} {
+				m := pg.Method{Name: fmt.Sprintf("ConvertBag%d%v", i, arg), SrcType: "BagS", DstType: "BagD", SrcPtr: true, DstPtr: true, Notes: ns}
+				if arg {
+					m.Opts.Style = "arg"
+					m.Opts.Typecast = 1
+				}
+				ms = append(ms, m)
+			}
+		}
+		p.Ifaces = []pg.Iface{{Name: "Convergen", Methods: ms}}
+		p.FixImports()
+		files := p.Files()
+		r, v := judge(p, files)
+		if r.S.PlanErr != "" {
+			t.Fatalf("bag file: %s", r.S.PlanErr)
+		}
+		if r.S.Exit != 0 || r.NotBuilt != "" {
+			rec.Report(t, hx.Failf("C16|nested-bag|rejected-or-not-compiling", "exit %d\n%s\n%s", r.S.Exit, tail(r.S.Stderr, 500), tail(r.NotBuilt, 800)), progCase(p, files, "matrix"))
+		} else {
+			recordBehStats(rec, r)
+			rec.NonTrivialDistinctN(len(ms))
+			rec.ClassN("nested-bag:methods", len(ms))
+			rec.Report(t, v, progCase(p, files, "matrix"))
+		}
+	}
 }
+
+const c16BagTypes = `package home
+
+type LBag struct {
+	Tags   []int
+	Items  []LInner
+	Names  []LStr
+	Secret int
+	Owner  string
+}
+
+type LBagBox struct {
+	Bag LBag
+	K   int
+}
+
+type BagS struct {
+	N     int
+	Bag   LBag
+	Other LBag
+	Deep  LBagBox
+}
+
+type BagD struct {
+	N     int
+	Bag   LBag
+	Other LBag
+	Deep  LBagBox
+}
+`
 
 // ---------------------------------------------------------------------------------------------
 // C10 - pre/post hooks run once, in order, on the real operands.
